@@ -554,3 +554,20 @@ _addtie("C02", ["TieError"], TIE_ERROR)
 _addtie("C05", ["TieError"], [_T + n for n in ("tie_readyForQuery", "tie_ErrorCode", "tie_ErrorCode_sent",
                                                 "tie_ErrorCode_writeFails", "tie_ErrorCode_readyFails")])
 _addtie("C04", ["TieError"], [_T + "tie_writeErrorResponse_noPanic"])
+
+# ---- session 5 (continued): the translated binary COPY reader end to end against the model (Props/TieCopy2.lean):
+# takeLength, skipHeader with a signature, fill / take over a stream of complete messages (simulation relation c2_Sim),
+# BinaryCopyReader.Read against binRead
+TIE_BINCOPY2 = [_T + n for n in (
+    "tie_takeLength_ok", "tie_takeLength_ok_abs", "tie_skipHeader_flags_err", "tie_skipHeader_flags_block",
+    "tie_skipHeader_extlen_err", "tie_skipHeader_extlen_block", "tie_skipHeader_ext_null", "tie_skipHeader_ext",
+    "tie_skipHeader_ext_cases", "tie_binRead_ctx", "tie_binRead_started", "tie_binRead_fresh", "tie_rowPart_eof",
+    "tie_rowPart_err", "tie_rowPart_block", "tie_rowPart_body", "tie_rowBody_take_err", "tie_rowBody_take_block",
+    "tie_rowBody_trailer", "absErr_fieldCount", "tie_rowBody_count_mismatch", "tie_rowBody_fields", "absErr_wrap",
+    "tie_fieldLoop_done", "tie_fieldLoop_len_err", "tie_fieldLoop_len_block", "tie_fieldLoop_null",
+    "tie_fieldLoop_null_noscan", "tie_fieldLoop_value_err", "tie_fieldLoop_value", "tie_fill_stream", "tie_take_stream",
+    "tie_fill_sim", "tie_take_sim", "tie_takeLength_sim", "tie_headerRest_sim", "tie_skipHeader_sim", "tie_fields_sim",
+    "tie_rowBody_sim", "tie_rowStart_sim", "tie_binRead_sim")]
+_addtie("C14", ["TieCopy2"], TIE_BINCOPY2)
+_addtie("C13", ["TieCopy2"], [_T + "tie_fill_stream", _T + "tie_take_stream", _T + "tie_binRead_sim"])
+_addtie("C04", ["TieCopy2"], [_T + "tie_binRead_sim", _T + "tie_fill_sim", _T + "tie_take_sim"])
